@@ -1780,3 +1780,135 @@ func loopOwner(c *Ctx, fn *ssa.Function, m Matcher) *ssa.Function {
 	}
 	return fn
 }
+
+// flushNeverSkippedGroup: the manifest log pointer is a high-water mark (recovery drops every
+// WAL segment at or below it), so the single flush worker must never go on to a younger
+// memtable after a failed flush.
+func flushNeverSkippedGroup(c *Ctx, rule string) {
+	c.Rule(rule, "in the flush worker started by LSM.startFlushWorkers, the error edge of levelManager.flush never leads back to flushMgr.Next (the next task) except through another call of levelManager.flush for the same memtable (retry loop) or the worker's exit when the LSM is closing")
+	fn := c.Fn("lsm", "LSM.startFlushWorkers")
+	if fn == nil {
+		return
+	}
+	var flushFns []*ssa.Function
+	var collect func(f *ssa.Function)
+	collect = func(f *ssa.Function) {
+		if len(Calls(f, false, Named("lsm.(*levelManager).flush"))) > 0 {
+			flushFns = append(flushFns, f)
+		}
+		for _, a := range f.AnonFuncs {
+			collect(a)
+		}
+	}
+	collect(fn)
+	c.Decide(len(flushFns) >= 1, rule, key(fn, "has:levels.flush"), fn.Pos(), 1, "flush call found", "the flush worker no longer calls levelManager.flush")
+	for _, f := range flushFns {
+		c.Touch(f)
+		for i, fl := range Calls(f, false, Named("lsm.(*levelManager).flush")) {
+			ev := ErrResult(fl)
+			if ev == nil {
+				c.Fail(rule, key(f, fmt.Sprintf("flush[%d]#error-examined", i+1)), fl.Pos(), 1, "the error of levelManager.flush is discarded")
+				continue
+			}
+			// on the failure edge every path either reaches this flush call again (retry) or a return
+			// that tells the worker to stop (dominated by a load of LSM.closed), never a plain return
+			// that lets the worker continue with the next task
+			bad := false
+			for _, e := range NilEdges(f, FlowSet(ev)) {
+				seen := map[*ssa.BasicBlock]bool{}
+				var walk func(b *ssa.BasicBlock, closing bool)
+				walk = func(b *ssa.BasicBlock, closing bool) {
+					if seen[b] || b == fl.Block() {
+						return // back at the flush call: a retry
+					}
+					seen[b] = true
+					for _, in := range b.Instrs {
+						if ci, ok := in.(ssa.CallInstruction); ok && Named("(*sync/atomic.Bool).Load")(ci.Common()) {
+							if o, fld, ok := FieldOf(ci.Common().Args[0]); ok && o == "lsm.LSM" && fld == "closed" {
+								closing = true
+							}
+						}
+						if _, ok := in.(*ssa.Return); ok && !closing {
+							bad = true
+						}
+					}
+					for _, s := range b.Succs {
+						walk(s, closing)
+					}
+				}
+				walk(e.NonNil[1], false)
+			}
+			c.Decide(!bad, rule, key(f, fmt.Sprintf("flush[%d]#failure-retried-or-worker-stops", i+1)), fl.Pos(), 3, "a failed flush is retried; the worker only gives up when the LSM is closing", "after a failed levelManager.flush the worker returns to take the next task: a younger memtable's flush then advances the manifest log pointer past the unflushed segment, and recovery deletes that WAL segment without replaying it (acknowledged writes lost after a clean restart)")
+		}
+	}
+}
+
+// manifestCreateGroup: createNew truncates MANIFEST-000001; it may only run for a directory
+// that has no CURRENT file.
+func manifestCreateGroup(c *Ctx, rule string) {
+	c.Rule(rule, "manifest.Open calls Manager.createNew (which opens MANIFEST-000001 with O_TRUNC) only on the true edge of errors.Is(err, os.ErrNotExist) for the error of loadCurrent; every other loadCurrent error is returned")
+	fn := c.Fn("manifest", "Open")
+	if fn == nil {
+		return
+	}
+	for i, cn := range need(c, rule, fn, false, "createNew", Named("manifest.(*Manager).createNew"), 1) {
+		guarded := false
+		for _, is := range Calls(fn, false, Named("errors.Is")) {
+			call, _ := is.(*ssa.Call)
+			if call == nil {
+				continue
+			}
+			if u, ok := call.Call.Args[1].(*ssa.UnOp); ok {
+				if g, ok := u.X.(*ssa.Global); ok && g.Name() == "ErrNotExist" {
+					for _, b := range fn.Blocks {
+						ifi := ifOf(b)
+						if ifi == nil || !condMentions(ifi.Cond, call, 3) {
+							continue
+						}
+						// createNew must not be reachable from the edge on which errors.Is is false
+						falseEdge := b.Succs[1]
+						if u2, ok := ifi.Cond.(*ssa.UnOp); ok && u2.Op == token.NOT {
+							falseEdge = b.Succs[0]
+						}
+						if !blockReaches(falseEdge, cn.Block()) && blockReaches(b, cn.Block()) {
+							guarded = true
+						}
+					}
+				}
+			}
+		}
+		c.Decide(guarded, rule, key(fn, fmt.Sprintf("createNew[%d]<-ErrNotExist", i+1)), cn.Pos(), 2, "a new manifest is created only for a directory without CURRENT", "manifest.Open creates (truncates) a new manifest on any loadCurrent error: a transient failure to open the existing manifest empties it, every SST becomes unreferenced and is deleted")
+	}
+}
+
+// vlogRewindGroup: the failure path of valueLog.write rewinds exactly the buckets recorded as
+// touched; a bucket must be recorded before its (possibly partially effective) append.
+func vlogRewindGroup(c *Ctx, rule string) {
+	c.Rule(rule, "valueLog.write records a bucket in `touched` before calling Manager.AppendEntries on it (the map update dominates the call), so the failure path (fail → Manager.Rewind) also rewinds the bucket whose append failed after reserving space")
+	fn := c.Fn("", "valueLog.write")
+	if fn == nil {
+		return
+	}
+	var marks []ssa.Instruction
+	AllInstrs(fn, false, func(in ssa.Instruction) {
+		if mu, ok := in.(*ssa.MapUpdate); ok && strings.Contains(mu.Map.Type().String(), "map[uint32]struct{}") {
+			marks = append(marks, in)
+		}
+	})
+	for i, ap := range need(c, rule, fn, false, "AppendEntries", Named("vlog.(*Manager).AppendEntries"), 1) {
+		ok := false
+		for _, m := range marks {
+			if Dominates(m, ap.(ssa.Instruction)) {
+				ok = true
+			}
+		}
+		c.Decide(ok, rule, key(fn, fmt.Sprintf("AppendEntries[%d]<-touched[bucket]", i+1)), ap.Pos(), len(marks)+1, "the bucket is marked before the append", "the bucket is recorded as touched only after AppendEntries succeeded: a failed append that already reserved space is not rewound, the segment keeps a zero-filled hole, and the next Open truncates every value committed behind it")
+	}
+	rw := false
+	for _, a := range fn.AnonFuncs {
+		if len(Calls(a, false, Named("vlog.(*Manager).Rewind"))) > 0 {
+			rw = true
+		}
+	}
+	c.Decide(rw, rule, key(fn, "fail→Rewind"), fn.Pos(), 1, "the failure path rewinds touched buckets", "valueLog.write's failure path no longer rewinds the touched buckets")
+}
